@@ -42,31 +42,39 @@ RULE = ("(corpus reaction satisfying the precondition, written as in the corpus 
         "template = centre | full ITS, direction, strategy); non-trivial = the identity match exists and the centre has >= 2 changed "
         "bonds; distinct = distinct (reaction string, template kind, direction, strategy)")
 EXHAUSTIVE = {"quick": False, "thorough": False}
-EXPLANATION = ("Theorems about the Gallina model of rsmi_to_its/get_rc + SynRule + SynReactor._glue_graph on the reaction's own "
-               "substrate: the identity is a valid match of the prepared pattern, and the ITS glued along it decomposes to the "
-               "reaction again (template = full ITS or centre, forwards and backwards). Correspondence: every intermediate graph "
-               "compared before RDKit serialisation; oracle: the property itself on strings with triage of every miss.")
+EXPLANATION = ("Theorems about the Gallina model of rsmi_to_its/get_rc + SynRule + the SynReactor object (options, the caches behind mappings / "
+               "its_list / smarts_list, the engine call through C06's find_subgraph_mappings model, the pruning through C11's model, "
+               "_glue_graph, _explicit_h, _to_smarts / reverse_reaction) on the reaction's own substrate: the identity is a valid match, it is "
+               "among the raw matches of the exhaustive strategy, an equivalent of it survives the pruning, the ITS glued along it decomposes to "
+               "the reaction (implicit mode: through the whole reactor up to RDKit; default mode: through _strip_explicit_h, gluing and _explicit_h), "
+               "template = full ITS or centre, forwards and backwards; strategies comp / bt refuted with a witness. Correspondence: every "
+               "intermediate graph before RDKit, the raw matches (enumerated by the model), the kept mappings, and the VALUE of every read of a "
+               "reactor object; oracle: the property itself on strings with triage of every miss.")
 TRUSTED_BASE = [
     "Coq 8.16.1 kernel + vm_compute (no native_compute)",
-    "hand-written models coq/model/C04_Model.v (ITS construction, centre, substrate preparation, pipeline) and coq/model/C03_Model.v "
-    "(SynRule, glue, _explicit_h, _invert_template) tied to the Python code by the per-run correspondence",
-    "harness encoders harness/gen/c03_common.py, harness/gen/c04_gen.py, harness/props/C04.py",
-    "oracle inputs: RDKit parsing of the mapped reaction into (G, H); VF2 enumeration (identity-in-raw-matches is compared with the model's "
-    "match validity, so an incomplete matcher shows as a correspondence break); explicit-hydrogen re-matches",
+    "hand-written models coq/model/C04_Model.v (ITS construction, centre, substrate preparation, pipeline), coq/model/C04_Reactor.v (the reactor object: "
+    "options, caches, engine call, pruning, serialisation glue) and, read-only, coq/model/C03_Model.v (SynRule, glue, _explicit_h, _invert_template), "
+    "coq/model/C06_Model.v (find_subgraph_mappings), coq/model/C11_Model.v (pruning by automorphisms), tied to the Python code by the per-run correspondence",
+    "harness encoders harness/gen/c03_common.py, harness/gen/c04_gen.py, harness/gen/c04_obj.py, harness/props/C04.py",
+    "oracle inputs: RDKit parsing of the mapped reaction into (G, H) and graph_to_smi of the sides of an ITS (handed to the model by position); VF2 "
+    "enumeration (the raw matches of the reactor are compared AS A SET with the model's own enumeration by C06's verified enumerator when the graphs "
+    "are small, and always through the bit identity-in-raw-matches); explicit-hydrogen re-matches",
 ]
 ASSUMPTIONS = ["the reaction parses with RDKit, has no empty fragment, every atom carries a distinct atom map and both sides carry the same maps (balanced, mapped)",
                "hydrogens written consistently: consistent_H (no reaction with explicit centre hydrogens AND implicit hydrogen-count changes)",
                "the hydrogen mode of the reactor is the one the reaction calls for (explicit centre hydrogens -> default, none -> implicit_temp)"]
 TESTED_NOT_PROVED = [
     "string level: RDKit parsing of the unmapped side gives the implicit-hydrogen form of the mapped side (monitored: isomorphism bit in the oracle), "
-    "serialisation of the glued ITS (_to_smarts) and Standardize.fit - the property oracle runs the whole chain",
-    "the identity match survives the pruning by rule automorphisms up to an equivalent match (oracle: a regenerating ITS is in its_list)",
-    "default (explicit-hydrogen) mode: proved from the boolean precondition default_okb up to the ITS BEFORE _explicit_h (C04_identity_glue_default); "
-    "outside default_okb (spectator hydrogens written explicitly with a centre template, H2 / H+) the premise 'the prepared rule describes the pair' is "
-    "VALIDATED per case (describesb, model + harness; C04_identity_glue_any_rule); the _explicit_h stage and the H2 re-match path are covered by the "
-    "correspondence and the oracle only",
-    "SynReactor as an object: repeated / reordered reads of lazily cached attributes, shared template / SynRule / substrate objects, hand-over forms and "
-    "options (history cases: every step compared with a fresh evaluation; the model is pure)",
+    "serialisation of the glued ITS (graph_to_smi) and Standardize.fit - the property oracle runs the whole chain; the model takes the strings as inputs",
+    "default (explicit-hydrogen) mode: proved from the boolean precondition default_okb through rule preparation, gluing and _explicit_h "
+    "(C04_identity_default_end) with ONE premise validated per case: _explicit_h does not raise on the glued ITS (observable: its result); outside "
+    "default_okb (H2 / H+, re-match path) the premise 'the prepared rule describes the pair' is validated per case (describesb, C04_identity_glue_any_rule) "
+    "and the re-match path is covered by correspondence and oracle only; the default mode is not taken through the engine / pruning theorems "
+    "(that the identity satisfies the matcher's predicates on the stripped pattern is compared per case, not proved)",
+    "strategies comp / bt: refuted in general (C04_comp_bt_refuted, 2 known-finding keys); outside that class and the strict_cc_count guard region they are "
+    "covered by correspondence (raw matches enumerated by the model through C06's comp / bt) and the oracle only",
+    "reads after a StopIteration of _explicit_h return the half-processed cached list (C04_stale_after_crash: proved about the model, replayed on "
+    "the implementation; outside the precondition, documented)",
     "invariance under atom-map renumbering and SMILES rewriting: every case is run on rewritten inputs (C05 states the equivariance)",
 ]
 
@@ -883,10 +891,16 @@ def _mk_obj(hname, r, core, inv, script):
     return c
 
 
-def _obj_cases(tier, rng):
+def _obj_cases(tier, rng, corpus_pick=()):
     """one reactor OBJECT per case, a script of reads, every VALUE compared with the state machine of model/C04_Reactor.v"""
     out = []
     scripts = sorted(OB.SCRIPTS)
+    # corpus reactions (usp: default mode with _explicit_h over the list; eco: implicit mode, charges): one script each, random template / direction
+    for cid, r in corpus_pick:
+        c = _mk(cid, r, rng.random() < 0.5, rng.random() < 0.5, "all", 0, None)
+        sc = rng.choice(scripts)
+        c.update(kind="object-" + sc, name="%s:obj:%s" % (c["name"], sc), obj="own", script=sc)
+        out.append(c)
     for hname, r in HAND:
         for core in (True, False):
             for inv in (False, True):
@@ -935,7 +949,8 @@ def gen_cases(tier, rng):
                 for core in (True, False):
                     for inv in (False, True):
                         slow21 = (cid == "usp#21" and inv and not core)
-                        for k in ((0,) if slow21 else (0, 1, 2)):
+                        # original + 1 rewriting; a second rewriting for the centre of every third reaction (time budget: <= 20 min)
+                        for k in ((0,) if slow21 else ((0, 1, 2) if (core and i % 3 == 0) else (0, 1))):
                             cases.append(_mk(cid, C[name][i], core, inv, "all" if k == 0 else rng.choice(strategies), k, rng))
         hand_k = (0, 1, 2, 3)
     for hname, r in HAND:
@@ -951,26 +966,33 @@ def gen_cases(tier, rng):
                     for k in hand_k:
                         cases.append(_mk("hand:" + hname, r, core, inv, rng.choice(strategies), k, rng))
     cases += _hist_cases(tier, rng)
-    cases += _obj_cases(tier, rng)
+    if tier == "quick":
+        opick = [("%s#%d" % (name, i), C[name][i]) for name, i in pick[:5] + pick[9:14]]
+    else:
+        opick = [("%s#%d" % (name, row[0]), C[name][row[0]]) for name in ("usp", "eco") for row in good[name][::4]
+                 if "%s#%d" % (name, row[0]) not in SLOW and not (name == "usp" and row[0] == 21)]
+    cases += _obj_cases(tier, rng, opick)
     return prepare_all(cases)
 
 
 LEVEL_TEXT = ("Machine-checked proof (Coq) over an executable model of the round trip reaction -> template (ITS construction, reaction centre, "
-              "SynRule preparation, _invert_template) -> application to the reaction's own reactants / products (pattern preparation, "
-              "SynReactor._glue_graph along the identity match): for every balanced pair of graphs written with implicit hydrogens the identity "
-              "is a valid match of the prepared pattern and the glued ITS decomposes to the reaction again, for the full ITS as template always "
-              "and for the centre exactly when no atom outside the centre changes charge or hydrogen count, forwards and backwards; the same in the "
-              "default mode for reactions written with explicit hydrogens (rule preparation by _strip_explicit_h included, result before "
-              "_explicit_h); for any rule in either mode that passes the boolean check 'describes the pair'; and for the identity composed with "
-              "any symmetry of the rule (what the pruning may keep). The model is "
-              "tied to the Python code by comparing every intermediate graph (before RDKit serialisation) on corpus reactions, their atom-map "
-              "renumberings and SMILES rewritings on every run; the property itself is run end to end by an independent oracle.")
-LEVEL_NOTE = ("Trusted: Coq kernel + vm_compute; the hand-written models and harness encoders; RDKit parsing and VF2 matching are oracle inputs "
-              "(identity-in-raw-matches is compared with the model's match validity). Tested, not proved: in the default explicit-hydrogen mode the "
-              "proof stops before _explicit_h (re-materialised hydrogens are compared only) and needs every explicit hydrogen to be a template atom "
-              "(otherwise the premise is validated per case); object state of SynReactor (history cases); survival of the identity match under automorphism pruning, RDKit serialisation and "
-              "Standardize.fit, invariance under renumbering / rewriting (run on rewritten inputs). Known: centre templates cannot regenerate "
-              "reactions with a charge / hydrogen change away from any changed bond (56 ecoli reactions); explicit-hydrogen re-matching fails for "
-              "a backwards template that keeps H2 explicit (usp#21).")
+              "SynRule preparation, _invert_template) -> SynReactor object on the reaction's own reactants / products (pattern preparation, engine "
+              "call, pruning by rule automorphisms, _glue_graph, _explicit_h, its_list / smarts_list with their caches): for every balanced pair of "
+              "graphs written with implicit hydrogens, under C06's contract for the one VF2 enumeration of the exhaustive strategy, a fresh reactor "
+              "built from the own template has in its_list an ITS that decomposes to the reaction and, given RDKit's strings for its two sides, the "
+              "reaction string in smarts_list (turned round again when run backwards) - for the full ITS always and for the centre exactly when no "
+              "atom outside the centre changes charge or hydrogen count, forwards and backwards; in the default mode for reactions written with "
+              "explicit hydrogens the identity match, the gluing and the _explicit_h stage are proved (the re-materialised hydrogens fold back "
+              "exactly); reads of one reactor object in any order and number equal fresh reads; the pruning premise holds for any raw list "
+              "(C11) with canonical attribute codes proved faithful; strategies comp / bt are refuted by a witness. The model is tied to the Python "
+              "code by comparing every intermediate graph, the raw and kept matches and the value of every read on corpus reactions, their "
+              "atom-map renumberings and SMILES rewritings on every run; the property itself is run end to end by an independent oracle.")
+LEVEL_NOTE = ("Trusted: Coq kernel + vm_compute; the hand-written models and harness encoders; RDKit parsing / serialisation and VF2 matching are oracle "
+              "inputs (raw matches compared with the model's verified enumeration when small). Tested, not proved: in the default mode that _explicit_h "
+              "does not raise on the glued ITS and that the identity passes the matcher's predicates on the stripped pattern (both compared per "
+              "case), the H2 / H+ re-match path; RDKit serialisation and Standardize.fit; invariance under renumbering / rewriting (run on "
+              "rewritten inputs). Known: centre templates cannot regenerate reactions with a charge / hydrogen change away from any changed bond "
+              "(56 ecoli reactions); explicit-hydrogen re-matching fails for a backwards template that keeps H2 explicit (usp#21); strategies comp / bt "
+              "lose an intramolecular reaction next to a spectator offering the missing group (by C06's specification of the strategies).")
 TECHNIQUE = "Coq proof about a Gallina model + per-run correspondence (vm_compute digest vs implementation) + independent property oracle"
 DESIGN_REF = "DESIGN.md section 5 C04; section 7 row 19; notes/C04.md"
